@@ -13,6 +13,13 @@ def run(ctx):
     for shape in (quick if ctx.tier == 'quick' else thorough):
         l3.harness(ctx, 'C01_rt_%s' % shape, 'C01_rt.c', shape, defs, functions=FUN, timeout=1200 if ctx.tier == 'quick' else 3000,
                    desc='d = factory(encode(m)) succeeds, holds the fields/values/group shape of m; encode(d) is byte-identical')
+    # nested groups (extension, thorough tier): message List of schemas/mini2.xml, harness/C11_nested.c MODE=3 (tools/reports/C11.md "Nested groups")
+    nested = [sh_ for sh_ in (['nested1', 'nested2'] if ctx.tier == 'thorough' else []) if not getattr(ctx, 'only', None) or any(o in 'C01_rt_' + sh_ for o in ctx.only)]
+    if nested: l3.world2(ctx)
+    for shape in nested:
+        h = l3.harness(ctx, 'C01_rt_%s' % shape, 'C11_nested.c', shape, defs + ['MODE=3', 'L3_WORLD_C="l3w2.c"'], functions=FUN + l3.FUN_NEST, timeout=3000,
+                       desc='d = factory(encode(m)) succeeds, holds the fields/values/group and nested group shape of m; encode(d) is byte-identical')
+        h.object_bits = 13; h.nested = True
     ctx.assumptions += ['operator new never fails', 'rb-tree rebalancing replaced by an unbalanced BST with the same in-order sequence',
                         'gmtime_r follows its contract (proleptic Gregorian UTC) for the instants the message carries',
                         'schema: schemas/mini.xml compiled by the f8c of the tree under test on every run; floats (C08 finding) are not part of the shapes; nesting depth 1']
@@ -29,7 +36,7 @@ def classify(cx, h):
 def replay(ctx, cx, h=None):
     c = cx.get('cx', cx)
     shape = h.shape if h is not None else c.get('shape')
-    rc, out = l3.run_replay(ctx, 'rt', l3.cx_args(c, shape))
+    rc, out = l3.run_replay(ctx, 'rt', l3.cx_args(c, shape), exe=l3.replay_exe2(ctx) if shape in l3.NEST else None)
     bad = rc != 0; what = l3.short(out)
     e1 = next((bytes.fromhex(l.split()[1]) for l in out.splitlines() if l.startswith('E1 ')), None)
     if not bad and e1 is not None:
